@@ -109,6 +109,10 @@ pub fn worker(args: &Args) {
     while i < runs {
         run_one(batch_seed, i, &mut out, &mut d);
         i += stride;
+        if out.violations.len() >= 20 {
+            // enough to report; the rest of the slice would only repeat it
+            break;
+        }
     }
     out.write(&out_path)
         .unwrap_or_else(|e| driver::harness_error(&format!("cannot write worker output: {}", e)));
